@@ -7,6 +7,7 @@ from __future__ import annotations
 
 import ast
 import json
+import types
 from typing import Any, Optional
 
 from . import codec, core, pyz
@@ -107,6 +108,8 @@ def cond_text(c: dict, top: bool = True) -> str:
         return "bool(x)"
     if k == "len":
         return f"len(x) {c['op']} {c['n']}"
+    if k == "cmp":
+        return f"x {c['op']} {lit[0]}"
     if k == "not":
         return f"not ({cond_text(c['subs'][0], False)})"
     if k in ("and", "or"):
@@ -202,6 +205,14 @@ def _predicate(pred: dict, varname, ctx):
         provider = PredicateProvider(varname, len_of_value, len_transformer)
         # the predicate function is a closure created by this (self-free) method
         con = NameCheckVisitor._constraint_from_predicate_provider(None, provider, pred["n"], _AST_OPS[pred["op"]]())
+        return con.value
+    if p == "cmp":
+        # the predicate function is a closure created by _constraint_from_compare_op; the only thing it needs from the
+        # visitor is the varname of the constrained node
+        from pyanalyze.stacked_scopes import Composite
+
+        stub = types.SimpleNamespace(composite_from_node=lambda node: Composite(None, varname))
+        con = NameCheckVisitor._constraint_from_compare_op(stub, None, codec.obj_to_py(pred["lits"][0]), _AST_OPS[pred["op"]](), is_right=True)
         return con.value
     raise core.MachineryError(f"unknown predicate {pred}")
 
